@@ -35,6 +35,8 @@ pub fn op_kind(op: &Op) -> &'static str {
         Op::CollectFees { .. } => "collect_fees",
         Op::CollectProtocol { .. } => "collect_protocol",
         Op::Clock(_) => "clock",
+        Op::Epoch(_) => "epoch",
+        Op::SetTransferFee { .. } => "set_transfer_fee",
         Op::SetFeeRate(_) => "set_fee_rate",
         Op::SetProtocolFeeRate(_) => "set_protocol_fee_rate",
         Op::CollectReward { .. } => "collect_reward",
@@ -67,7 +69,7 @@ impl<'a> Model for PoolModel<'a> {
     }
     fn step(&self, s: &Ledger, op: &Op) -> Result<Option<Ledger>, String> {
         let st = ops::apply(s, self.w, op);
-        if st.ix.is_none() && !matches!(op, Op::Clock(_)) {
+        if st.ix.is_none() && !matches!(op, Op::Clock(_) | Op::Epoch(_)) {
             self.count(op, "n/a");
             return Ok(None);
         }
